@@ -165,7 +165,19 @@ func (p *Profile) RemoveUninteresting() error {
 // PruneFrom(B) returns [B,C,B,D] by removing all nodes beneath the first B when scanning from the bottom.
 // Prune(B, nil) returns [D] because a matching node is found by scanning from the root.
 func (p *Profile) PruneFrom(dropRx *regexp.Regexp) {
-	pruneBeneath := make(map[uint64]bool)
+	// pruneBeneath maps the ID of each matching location to the location to
+	// use where it becomes the new leaf of a sample: the location itself, or a
+	// copy without the lines beneath the lowest matching line. The original
+	// location is left intact because other samples may contain it above their
+	// lowest match, where all its lines must be kept.
+	pruneBeneath := make(map[uint64]*Location)
+	var nextID uint64
+	for _, loc := range p.Location {
+		if loc.ID >= nextID {
+			nextID = loc.ID + 1
+		}
+	}
+	var trimmed []*Location
 
 	for _, loc := range p.Location {
 		for i := 0; i < len(loc.Line); i++ {
@@ -173,20 +185,31 @@ func (p *Profile) PruneFrom(dropRx *regexp.Regexp) {
 				funcName := simplifyFunc(fn.Name)
 				if dropRx.MatchString(funcName) {
 					// Found matching entry to prune.
-					pruneBeneath[loc.ID] = true
-					loc.Line = loc.Line[i:]
+					if i == 0 {
+						pruneBeneath[loc.ID] = loc
+						break
+					}
+					leaf := *loc
+					leaf.ID = nextID
+					nextID++
+					leaf.Line = append([]Line(nil), loc.Line[i:]...)
+					pruneBeneath[loc.ID] = &leaf
+					trimmed = append(trimmed, &leaf)
 					break
 				}
 			}
 		}
 	}
+	p.Location = append(p.Location, trimmed...)
 
 	// Prune locs from each Sample
 	for _, sample := range p.Sample {
 		// Scan from the bottom leaf to the root to find the prune location.
 		for i, loc := range sample.Location {
-			if pruneBeneath[loc.ID] {
-				sample.Location = sample.Location[i:]
+			if leaf := pruneBeneath[loc.ID]; leaf != nil {
+				locs := append([]*Location(nil), sample.Location[i:]...)
+				locs[0] = leaf
+				sample.Location = locs
 				break
 			}
 		}
